@@ -441,6 +441,34 @@ def mode_probe(req):
     a = np.arange(3.0)
     with zipfile.ZipFile(io.BytesIO(sio.dumps([a, a, (a,), {"k": a}]))) as z:
         res["array_four_refs_members"] = len(id_members(z.namelist()))
+    # an id the LOADER makes up must never be confused with a saved id (D34, repaired): ids are addresses, so a saved
+    # __id__ may equal the address of anything that is alive in the loading process -- here the class / the objects a
+    # reduce-style node names its constructor with
+    res["load_time_id_collisions"] = []
+    try:
+        from sklearn.tree import DecisionTreeClassifier
+        from sklearn.tree._tree import Tree
+        import skops.io._sklearn as SK
+        t = DecisionTreeClassifier(max_depth=2, random_state=0).fit(np.arange(12.0).reshape(6, 2), [0, 1, 0, 1, 0, 1]).tree_
+        data = sio.dumps([t, "after", 7])
+        with zipfile.ZipFile(io.BytesIO(data)) as z:
+            members = {n: z.read(n) for n in z.namelist() if n != "schema.json"}
+            schema = json.loads(z.read("schema.json"))
+        candidates = {"id(Tree)": id(Tree), "id(ALLOWED_LOSSES)": id(getattr(SK, "ALLOWED_LOSSES", None)), "id(TreeNode)": id(SK.TreeNode),
+                      "id(ReduceNode)": id(SK.ReduceNode)}
+        for label, ident in candidates.items():
+            sch = json.loads(json.dumps(schema))
+            sch["content"][1]["__id__"] = ident
+            buf = io.BytesIO()
+            with zipfile.ZipFile(buf, "w") as z:
+                z.writestr("schema.json", json.dumps(sch))
+                for k, v in members.items():
+                    z.writestr(k, v)
+            back = sio.loads(buf.getvalue(), trusted=[])
+            if not (type(back[0]).__name__ == "Tree" and back[1] == "after" and back[2] == 7):
+                res["load_time_id_collisions"].append([label, repr(back[1])[:80]])
+    except ImportError:
+        res["load_time_id_collisions"] = None
     return res
 
 
